@@ -61,6 +61,39 @@ def _other(lab):
     return "F" if lab == "T" else "T"
 
 
+def _neighbour_stmt(g, n, forward):
+    """the single statement executed directly after (before) CFG node n, else None"""
+    if forward:
+        nxt = [d for d, lab in g.succ[n] if lab != "exc"]
+    else:
+        nxt = [a for a in g.succ for d, lab in g.succ[a] if d == n and lab != "exc"]
+    if len(nxt) == 1 and g.node(nxt[0]).kind == "stmt":
+        return nxt[0]
+    return None
+
+
+def _buf_cut(g, n):
+    """(slice taken from self.buf, slice kept in self.buf) when node n - or n and the statement next to it - cut the head off the buffer:
+    ``x, self.buf = self.buf[:a], self.buf[b:]`` or ``x = self.buf[:a]`` directly followed by ``self.buf = self.buf[b:]``"""
+    def parts(node):
+        prs = assigned_pairs(g.node(node).ast) if isinstance(g.node(node).ast, ast.Assign) else []
+        taken = [v for t, v in prs if isinstance(t, ast.Name) and v is not None and _slice_parts(v) and self_attr(_slice_parts(v)[0], "buf")]
+        kept = [v for t, v in prs if self_attr(t, "buf") and v is not None and _slice_parts(v) and self_attr(_slice_parts(v)[0], "buf")]
+        return taken, kept
+    taken, kept = parts(n)
+    if taken and kept:
+        return taken[0], kept[0]
+    other = _neighbour_stmt(g, n, forward=bool(taken))
+    if other is None:
+        return None
+    t2, k2 = parts(other)
+    if taken and k2 and not t2:
+        return taken[0], k2[0]
+    if kept and t2 and not k2:
+        return t2[0], kept[0]
+    return None
+
+
 def _slice_parts(e):
     if isinstance(e, ast.Subscript) and isinstance(e.slice, ast.Slice) and e.slice.step is None:
         return e.value, e.slice.lower, e.slice.upper
@@ -273,14 +306,12 @@ def structural(ctx0):
             if ok3 and isinstance(c.args[2], ast.Name):
                 mv = c.args[2].id
                 good = False
-                for d in reaching_defs(g, mv, t):
-                    prs = assigned_pairs(g.node(d).ast)
-                    m = [v for tt, v in prs if isinstance(tt, ast.Name) and tt.id == mv and v is not None]
-                    b = [v for tt, v in prs if self_attr(tt, "buf") and v is not None]
-                    if m and b:
-                        s1, s2 = _slice_parts(m[0]), _slice_parts(b[0])
-                        good = bool(s1 and s2 and self_attr(s1[0], "buf") and self_attr(s2[0], "buf") and s1[1] is None and s2[2] is None
-                                    and s1[2] is not None and s2[1] is not None and csrc(s1[2], al) == VDS and csrc(s2[1], al) == VDS)
+                rd = reaching_defs(g, mv, t)
+                need(ctx, len(rd) == 1, f"getPacket: one definition of {mv} reaches verify()")
+                cut = _buf_cut(g, rd[0])
+                need(ctx, cut is not None, f"getPacket: {mv} cut from the head of self.buf (in one statement or two adjacent ones)")
+                s1, s2 = _slice_parts(cut[0]), _slice_parts(cut[1])
+                good = bool(s1[1] is None and s2[2] is None and s1[2] is not None and s2[1] is not None and csrc(s1[2], al) == VDS and csrc(s2[1], al) == VDS)
                 ctx.check(good, "mac/mac-bytes-cut-from-buffer", cc, "the MAC compared is not exactly the verifyDigestSize bytes following the packet, removed from the buffer")
             else:
                 ctx.check(False, "mac/mac-bytes-cut-from-buffer", cc, "MAC argument shape not recognised")
@@ -345,10 +376,10 @@ def structural(ctx0):
             ctx.check(bool(whole) and guarded_by_edges(g, cn, whole), "segmentation/wait-for-whole-packet", cc,
                       f"the packet is cut from the buffer without the exact guard len(buf) >= 4 + {L} + macLen: a packet (or its MAC) split across "
                       "deliveries is truncated, or a complete final packet is never delivered")
-            prs = assigned_pairs(g.node(cn).ast)
-            enc = [v for t, v in prs if isinstance(t, ast.Name) and v is not None and _slice_parts(v) and self_attr(_slice_parts(v)[0], "buf")]
-            rest = [v for t, v in prs if self_attr(t, "buf") and v is not None]
-            ok = bool(enc) and bool(rest) and _slice_parts(enc[0])[1] is None and _slice_parts(rest[0])[2] is None \
+            cut = _buf_cut(g, cn)
+            need(ctx, cut is not None, "getPacket: the packet cut from the head of self.buf (in one statement or two adjacent ones)")
+            enc, rest = [cut[0]], [cut[1]]
+            ok = _slice_parts(enc[0])[1] is None and _slice_parts(rest[0])[2] is None and _slice_parts(enc[0])[2] is not None and _slice_parts(rest[0])[1] is not None \
                 and lin(_slice_parts(enc[0])[2], al) == (frozenset({(L, 1)}), 4) and lin(_slice_parts(rest[0])[1], al) == (frozenset({(L, 1)}), 4)
             ctx.check(ok, "segmentation/consume-exactly-packet", cc, f"the bytes taken and the bytes left do not meet at 4 + {L}")
         stash = stmts(g, lambda st: isinstance(st, ast.Assign) and any(self_attr(t, "first") and isinstance(v, ast.Name) and v.id == first_name for t, v in assigned_pairs(st)))
@@ -368,13 +399,15 @@ def structural(ctx0):
         ctx.check(bool(reuse), "segmentation/first-block-kept", q + " | <reuse>", "the stashed first block is never used again")
     with abstain(ctx0, 's/getPacket/lengths', 'receiver/ and tamper/ (bounded)'):
         ctx.need(_ok_gp, 'anchors of getPacket (section skipped)')
+        def is_mod(l):
+            return isinstance(l, ast.BinOp) and isinstance(l.op, ast.Mod) and csrc(l.right, al) == DBS and lin(l.left, al) == (frozenset({(L, 1)}), 4)
+
         def is_align(e):
             if isinstance(e, ast.Compare) and len(e.ops) == 1 and isinstance(e.ops[0], (ast.Eq, ast.NotEq)) and const_is(e.comparators[0], 0):
-                l = e.left
-                return isinstance(l, ast.BinOp) and isinstance(l.op, ast.Mod) and csrc(l.right, al) == DBS and lin(l.left, al) == (frozenset({(L, 1)}), 4)
-            return False
+                return is_mod(e.left)
+            return is_mod(e)        # the remainder used as a truth value: `if (packetLen + 4) % bs:`
         at = tests(g, is_align)
-        aligned = [(t, "T" if isinstance(g.node(t).ast.ops[0], ast.Eq) else "F") for t in at]
+        aligned = [(t, ("T" if isinstance(g.node(t).ast.ops[0], ast.Eq) else "F") if isinstance(g.node(t).ast, ast.Compare) else "F") for t in at]
         ctx.check(bool(aligned) and guarded_by_edges(g, ret, aligned), "length/block-aligned", q, f"a packet whose length (4 + {L}) is not a multiple of the block size is not rejected")
         def is_declen(e):
             if isinstance(e, ast.Compare) and len(e.ops) == 1 and isinstance(e.ops[0], (ast.Eq, ast.NotEq)):
